@@ -47,6 +47,12 @@ CLAIMED = {
  "C19": ("exploration", "proptest scenarios (valid/broken/absent partials, dynamic names, dead paths) rendered under the three compilation policies; differential between policies, repeat renders and removal of broken partials",
          "Each generated scenario (C08 generator + enumerated call forms) builds eager, lazy and on-demand parsers over the in-memory source and renders the main template 1..3 times interleaved with an unrelated template: build must succeed, status/output must agree across policies and across repeats, replacing a broken partial by an absent one must change nothing.",
          "Differential between the three implementations; error message texts are not compared.", "4.19"),
+ "C11": ("exploration", "bounded-exhaustive ordered pairs of a 70-value pool built three independent ways, through every comparison API form and through templates, recomputed in fresh processes; proptest random recursive pairs",
+         "All ordered pairs of the pool (incl. one instant in three offsets, six-key objects, nested containers) checked for reflexivity, symmetry, duality of < and >, <= / >= consistency, equal-never-ordered, int/float equality, agreement of Value / ValueCow / ValueViewCmp / typed PartialEq / template operators, case, contains and uniq, and independence of construction route; the pair matrix is recomputed in 4 fresh processes with different hash seeds.",
+         "NaN excluded and transitivity not claimed, as in the statement.", "4.11"),
+ "C14": ("exploration", "bounded-exhaustive small arrays over duplicate/nil pools and object pools + proptest long arrays in several initial orders against permutation/order/stability/reference oracles",
+         "All arrays of length <=5 over {1,2,2.0,3,nil,nil} and {a,A,b,B,nil}, all object arrays of length <=4 with present/absent/nil/false properties, arrays up to 60 elements in random/sorted/reversed/organ-pipe order incl. mixed incomparable kinds. Oracles: permutation by multiset, non-decreasing with nil last, stability against a reference insertion sort, idempotence, reference results for uniq/compact/concat/map/where/first/last/size/slice/join.",
+         "For mutually incomparable elements only permutation and absence of failure are claimed (statement).", "4.14"),
 }
 
 NOT_YET = {
